@@ -704,6 +704,22 @@ func c10RunCase(w *bufio.Writer, rep *c10Reporter, c *c10Case, dist map[string]i
 			dist["HeaderCase"]++
 		}
 	}
+	// the frame payload of pass-through datagrams, byte for byte
+	if c.bk == "BPass" && len(c.hello) <= 1800 && dist["PayloadCase"] < 12+100*c10Thorough() {
+		for i, d := range dgs {
+			if d.Err != "" || i >= len(pkts) {
+				break
+			}
+			var fr []string
+			enc := 0
+			for _, f := range d.Frames {
+				fr = append(fr, u.Pair(u.Z(f[0]), u.Z(f[1])))
+				enc += 1 + len(c10AppendVarint(nil, uint64(f[0]))) + len(c10AppendVarint(nil, uint64(f[1]))) + int(f[1])
+			}
+			fmt.Fprintf(w, "CASE 1 %s\n", u.App("PayloadCase", u.Hex(c.hello), u.List(fr), u.Z(int64(len(pkts[i].Payload)-enc)), u.Hex(pkts[i].Payload)))
+			dist["PayloadCase"]++
+		}
+	}
 	// the whole protected packet, byte for byte (concrete Initial keys in the model): the first
 	// packet of a few short flights per run (AES-GCM in Gallina costs time per byte)
 	if len(dgs) > 0 && dgs[0].Err == "" && len(pkts) > 0 && len(pkts[0].Payload) <= 400+800*c10Thorough() && dist[fmt.Sprintf("WireCase-v%#x", c.ver())] < 3+20*c10Thorough() {
